@@ -9,6 +9,17 @@ DRIVERS = ["acq_runtime"]
 
 # per property: Lean module, audited theorems, scenario classes (quick subset first), which oracle kinds belong to it
 TABLE = {
+    "C04": {
+        "module": "AcqVerif.Props.C04",
+        "theorems": ["AcqVerif.C04.stored_is_a_prefix_of_the_camera_frames", "AcqVerif.C04.storage_gets_consecutive_committed_frames",
+                     "AcqVerif.C04.committed_frames_are_the_camera_frames", "AcqVerif.C04.channel_used_within_its_rules",
+                     "AcqVerif.Runtime.DUse.micro", "AcqVerif.Runtime.DLog.micro", "AcqVerif.Runtime.DId.micro"],
+        "classes": ["single", "two", "mon", "slowmon", "restart", "delay", "abort", "stofault", "camempty"],
+        "kinds": ("stored-", "camera-delivered", "packet-", "never-returns", "CRASH"),
+        "what": "a finite acquisition that is started and stopped hands storage exactly the camera's N frames, in order, with ids, hardware ids "
+                "and pixel bytes unchanged (after an abort or a storage fault: a gap-free prefix), for one and two streams, wrapping rings, "
+                "monitoring clients and write delays",
+    },
     "C07": {
         "module": "AcqVerif.Props.C07",
         "theorems": ["AcqVerif.C07.stop_returns_armed_and_clean", "AcqVerif.C07.stop_has_joined", "AcqVerif.C07.start_over_finished_threads",
